@@ -44,6 +44,7 @@ type Lat3 struct {
 	Eval    map[[3]int]int // evaluated points (index triple -> number of evaluations in the probe)
 	Stride  int            // 1: every lattice point is a cell corner (uniform); 2: corners are the even indices (octree)
 	NEvals  int
+	Missing int // see Lat2.Missing
 }
 
 func uniq(m map[float64]bool) []float64 {
@@ -119,7 +120,9 @@ func Discover3(r render.Render3, bb sdf.Box3, neutral float64) (*Lat3, error) {
 							}
 						}
 					}
-					return nil, fmt.Errorf("hierarchical lattice: corner %d,%d,%d was not evaluated by the probe", i, j, k)
+					// a corner all of whose cells lie outside the bounding box: the lattice (a product of the
+					// coordinate lists) is still well defined; the corner is only counted
+					l.Missing++
 				}
 			}
 		}
@@ -234,6 +237,10 @@ type Lat2 struct {
 	Eval   map[[2]int]int
 	Stride int
 	NEvals int
+	// Missing counts cell corners of the product lattice that the probe never evaluated although its field makes
+	// nothing prunable; all of them belong to cells wholly outside the bounding box (otherwise discovery fails
+	// with a CoverageError)
+	Missing int
 }
 
 // Discover2 renders a constant field through r and returns the lattice.
@@ -274,7 +281,7 @@ func Discover2(r render.Render2, bb sdf.Box2, neutral float64) (*Lat2, error) {
 						}
 					}
 				}
-				return nil, fmt.Errorf("hierarchical 2D lattice: corner %d,%d not evaluated by the probe", i, j)
+				l.Missing++
 			}
 		}
 	}
